@@ -11,14 +11,37 @@ From AV Require Import Multipart.Scan.
 From AV Require Import Multipart.Parser.
 Open Scope N_scope.
 
+(* upstream script, run-length encoded: chunk of the next n body bytes, Pending, stream error,
+   k chunks of n bytes, k times (chunk of n bytes, Pending) *)
+Inductive pl := PC (n : N) | PP | PE | PRepC (k n : N) | PRepCP (k n : N).
+
+Fixpoint rep_chunks (k : nat) (n : nat) (pend : bool) (body : bytes) : list ev * bytes :=
+  match k with
+  | O => ([], body)
+  | S k' => let '(r, b) := rep_chunks k' n pend (skipn n body) in
+            (EChunk (firstn n body) :: (if pend then EPending :: r else r), b)
+  end.
+
+Fixpoint expand (plan : list pl) (body : bytes) : list ev :=
+  match plan with
+  | [] => []
+  | PC n :: r => EChunk (firstn (N.to_nat n) body) :: expand r (skipn (N.to_nat n) body)
+  | PP :: r => EPending :: expand r body
+  | PE :: r => EErr :: expand r body
+  | PRepC k n :: r => let '(e, b) := rep_chunks (N.to_nat k) (N.to_nat n) false body in e ++ expand r b
+  | PRepCP k n :: r => let '(e, b) := rep_chunks (N.to_nat k) (N.to_nat n) true body in e ++ expand r b
+  end.
+
 Record case := mkCase {
   c_bnd : bytes;
   c_limit : option N;                 (* MultipartConfig::buffer_limit; None = default *)
-  c_script : list ev;
+  c_body : bytes;                     (* all chunk bytes of the upstream script, concatenated *)
+  c_plan : list pl;                   (* how they arrive *)
   c_consume : option N;
   c_hdrs : list (bytes * hres);       (* header-block oracle, tabulated by the harness *)
   c_orig24 : bool;                    (* implementation under test has the original `len > 4` *)
-  c_orig7 : bool                      (* ... the original Pending-at-eof exits *)
+  c_orig7 : bool;                     (* ... the original Pending-at-eof exits *)
+  c_orig25 : bool                     (* ... the original `if appended` wake after 16 chunks *)
 }.
 
 Fixpoint lookup (t : list (bytes * hres)) (b : bytes) : hres :=
@@ -38,43 +61,54 @@ Definition err_tag (e : merr) : bytes :=
   | EPanic => hx "70616e6963"
   end.
 
-Definition VP (w : bool) : V := VT "P" [VBool w].
-Definition VE (e : merr) : V := VT "E" [VBytes (err_tag e)].
+Inductive tev := TPend (w : bool) | TField (name : option bytes) (cl : option N) | TData (b : bytes)
+             | TFieldEnd | TDropped | TErr (e : merr) | TEnd | TBudget.
 
 Inductive dmode := AtMp | InField (n : N).
 
 Section Drive.
-Variable c : case.
-Let hdr := lookup (c_hdrs c).
-Let o24 := c_orig24 c.
-Let o7 := c_orig7 c.
+Variable hdr : bytes -> hres.
+Variables o24 o7 o25 : bool.
+Variable consume : option N.
 
-Fixpoint drive (fuel : nat) (m : mp) (mode : dmode) : list V :=
+Fixpoint drive (fuel : nat) (m : mp) (mode : dmode) : list tev :=
   match fuel with
-  | O => [VT "budget" []]
+  | O => [TBudget]
   | S k =>
       match mode with
       | AtMp =>
-          match mp_poll_next hdr o24 o7 m with
-          | (Pending, w, m1) => VP w :: (if w then drive k m1 AtMp else [])
-          | (Ready MEnd, _, _) => [VT "End" []]
-          | (Ready (MErr e), _, _) => [VE e]
-          | (Ready (MField name cl), _, m1) =>
-              VT "F" [VOpt VBytes name; VOpt VN cl] :: drive k m1 (InField 0)
+          match mp_poll_next hdr o24 o7 o25 m with
+          | (Pending, w, m1) => TPend w :: (if w then drive k m1 AtMp else [])
+          | (Ready MEnd, _, _) => [TEnd]
+          | (Ready (MErr e), _, _) => [TErr e]
+          | (Ready (MField name cl), _, m1) => TField name cl :: drive k m1 (InField 0)
           end
       | InField n =>
-          if match c_consume c with Some j => j =? n | None => false end
-          then VT "X" [] :: drive k m AtMp
+          if match consume with Some j => j =? n | None => false end
+          then TDropped :: drive k m AtMp
           else
-            match field_poll_next o24 o7 m with
-            | (Pending, w, m1) => VP w :: (if w then drive k m1 (InField n) else [])
-            | (Ready IEnd, _, m1) => VT "N" [] :: drive k m1 AtMp
-            | (Ready (IErr e), _, _) => [VE e]
-            | (Ready (IData b), _, m1) => VT "D" [VBytes b] :: drive k m1 (InField (n + 1))
+            match field_poll_next o24 o7 o25 m with
+            | (Pending, w, m1) => TPend w :: (if w then drive k m1 (InField n) else [])
+            | (Ready IEnd, _, m1) => TFieldEnd :: drive k m1 AtMp
+            | (Ready (IErr e), _, _) => [TErr e]
+            | (Ready (IData b), _, m1) => TData b :: drive k m1 (InField (n + 1))
             end
       end
   end.
 End Drive.
+
+(* compact, information-preserving rendering (same as transcript_v in c15.rs) *)
+Definition code (e : tev) : N :=
+  match e with
+  | TPend w => if w then 1 else 0
+  | TField _ _ => 2 | TFieldEnd => 3 | TDropped => 4 | TEnd => 5 | TErr _ => 6 | TBudget => 7
+  | TData b => 10 + lenN b
+  end.
+Definition render (t : list tev) : V :=
+  VT "t" [VL (map (fun e => VN (code e)) t);
+          VBytes (flat_map (fun e => match e with TData b => b | _ => [] end) t);
+          VL (flat_map (fun e => match e with TField n cl => [VT "F" [VOpt VBytes n; VOpt VN cl]] | _ => [] end) t);
+          VBytes (flat_map (fun e => match e with TErr x => err_tag x | _ => [] end) t)].
 
 Fixpoint body_len (s : list ev) : N :=
   match s with
@@ -85,5 +119,7 @@ Fixpoint body_len (s : list ev) : N :=
 
 Definition run_C15 (c : case) : V :=
   let limit := match c_limit c with Some n => n | None => MULTIPART_DEFAULT_BUFFER_LIMIT end in
-  let fuel := N.to_nat (20000 + 40 * lenN (c_script c) + 8 * body_len (c_script c)) in
-  VL (drive c fuel (mp_new (c_bnd c) (c_script c) limit) AtMp).
+  let script := expand (c_plan c) (c_body c) in
+  let fuel := N.to_nat (20000 + 40 * lenN script + 8 * body_len script) in
+  render (drive (lookup (c_hdrs c)) (c_orig24 c) (c_orig7 c) (c_orig25 c) (c_consume c) fuel
+                (mp_new (c_bnd c) script limit) AtMp).
